@@ -367,6 +367,100 @@ def gen_cases(ck, idents):
     add("real_length", ["d:%016x" % ONE])
     add("real_ifz", ["i:0", "v", "v"])
 
+    # ---- operand pairs within 1-2 ulps of the guard thresholds the proofs split on ----
+    def around(b, k=2):
+        out = []
+        for d in range(-k, k + 1):
+            m = (b & ~SIGN) + d
+            if m >= 0 and finite_bits(m):
+                out.append((b & SIGN) | m)
+        return out
+
+    def both_signs(pairs):
+        out = []
+        for a, b in pairs:
+            out += [(a, b), (a ^ SIGN, b ^ SIGN), (a ^ SIGN, b), (a, b ^ SIGN)]
+        return out
+
+    thr = {n: [] for n in BIN + UN}
+    half_ulp_max = pow2(970)                     # DBL_MAX + 2^970 is the first sum that rounds to infinity
+    for y in around(half_ulp_max) + around(pow2(971)) + around(pow2(969)):
+        for x in around(DBL_MAX):
+            thr["real_add"].append((x, y))
+            thr["real_sub"].append((x, y ^ SIGN))
+    for y in around(pow2(1023), 3):
+        for x in around(pow2(1023), 3):
+            thr["real_add"].append((x, y))
+            thr["real_sub"].append((x, y ^ SIGN))
+    # products at 2^1024: 2^512 * 2^512, sqrt(DBL_MAX)^2, DBL_MAX * (1 +- ulps), 2^1023 * (2 -+ ulps)
+    for x in around(pow2(512), 3) + around(0x5FEFFFFFFFFFFFFF, 3):
+        for y in around(pow2(512), 3) + around(0x5FEFFFFFFFFFFFFF, 3):
+            thr["real_mul"].append((x, y))
+            thr["real_aq"].append((f2b(1.0), y))
+            thr["real_aq"].append((DBL_MAX, y))
+    for x in around(DBL_MAX, 3) + around(pow2(1023), 3):
+        for y in around(ONE, 3) + around(f2b(2.0), 3):
+            thr["real_mul"].append((x, y))
+            thr["real_div"].append((x, y))               # DBL_MAX / (1 - ulp) overflows, / (1 + ulp) does not
+            thr["real_idiv"].append((x, y))
+        for y in around(f2b(0.5), 3) + [1, 2, DBL_MIN, DBL_MIN - 1]:
+            thr["real_div"].append((x, y))
+            thr["real_idiv"].append((x, y))
+    for x in (0, SIGN, 1, ONE, DBL_MAX):
+        for y in (0, SIGN):
+            thr["real_div"].append((x, y))
+            thr["real_idiv"].append((x, y))
+            thr["real_mod"].append((x, y))
+    # smallest quotients / products: the results are denormal or zero, never undefined
+    for x in around(DBL_MIN, 2) + [1, 2]:
+        for y in around(f2b(2.0), 1) + around(DBL_MAX, 1) + around(ONE, 1):
+            thr["real_div"].append((x, y))
+        for y in around(f2b(0.5), 1) + around(DBL_MIN, 1) + [1]:
+            thr["real_mul"].append((x, y))
+    # idiv: quotients within an ulp of an integer (floor jumps), of 2^53 and of +-0
+    for n_ in (1.0, 2.0, 3.0, 7.0, 1e15, 2.0 ** 52, 2.0 ** 53, 1e22):
+        for x in around(f2b(n_), 2):
+            thr["real_idiv"].append((x, ONE))
+            thr["real_idiv"].append((x, ONE | SIGN))
+    for a_, b_ in ((0.3, 0.1), (0.6, 0.2), (0.7, 0.1), (1.0, 0.1), (4.35, 0.01), (1.1, 1.1), (9.0, 3.0), (1e-300, 1e-300)):
+        for x in around(f2b(a_), 2):
+            for y in around(f2b(b_), 2):
+                thr["real_idiv"].append((x, y))
+                thr["real_mod"].append((x, y))
+    for x in (1, SIGN | 1, DBL_MIN, SIGN | DBL_MIN):
+        for y in (ONE, ONE | SIGN, DBL_MAX, DBL_MAX | SIGN):
+            thr["real_idiv"].append((x, y))              # floor of a tiny negative quotient is -1, of a tiny positive +0
+    # fmod: huge ratio x/y (long exact division), ratio next to 1, exact multiples
+    bigs = [DBL_MAX, DBL_MAX - 1, pow2(1023), f2b(1e308), f2b(1e300), f2b(2.0 ** 600 * 3)]
+    smalls = [1, 2, 3, DBL_MIN, DBL_MIN + 1, f2b(3.0), f2b(math.pi), f2b(0.1), f2b(1e-300), f2b(7.0), 0x000FFFFFFFFFFFFF]
+    for x in bigs:
+        for y in smalls:
+            thr["real_mod"].append((x, y))
+    for y in smalls + bigs + [ONE, f2b(0.5)]:
+        for x in around(y, 2):
+            thr["real_mod"].append((x, y))
+        for k_ in (2.0, 3.0, 1024.0):
+            z = b2f(y) * k_
+            if z == z and abs(z) != math.inf:
+                for x in around(f2b(z), 1):
+                    thr["real_mod"].append((x, y))
+    for n in BIN:
+        seen = set()
+        for a, b in both_signs(thr[n]):
+            if (a, b) not in seen:
+                seen.add((a, b))
+                add(n, [tok(a), tok(b)])
+    # unary thresholds: sqrt of -denormal / -0 / +denormal, ln at 0 and 1, exp overflow/underflow of sigmoid,
+    # multiples of pi/2 for sin and cos
+    un_thr = around(0, 2) + around(SIGN, 2) + around(ONE, 3) + around(DBL_MAX, 2) + around(DBL_MIN, 2)
+    for v_ in (709.0, 709.782712893384, 710.0, 745.0, 745.1332191019412, 746.0, 36.0, 36.7368005696771, 37.0, 38.0,
+               math.pi / 2, math.pi, 3 * math.pi / 2, 2 * math.pi, 1e22, 2.0 ** 53 * math.pi):
+        un_thr += around(f2b(v_), 2)
+    for n in UN:
+        for x in un_thr:
+            add(n, [tok(x)])
+            add(n, [tok(x ^ SIGN)])
+
     # random streams
     def rbits():
         r = rnd.random()
@@ -566,6 +660,86 @@ def tree_oracle(out):
         return None
     return "the program yields %s" % (out,)
 
+# ---------------------------------------------------------------- H_libm, measured
+def libm_samples(ck):
+    """finite doubles for the measured check of the Section hypotheses: every boundary value, 1-2 ulp
+    neighbourhoods of the multiples of pi/2 (small and huge), of the exp thresholds, dense negative exponents,
+    seeded random finite patterns"""
+    rnd = ck.rng
+    xs = set(boundary_bits(True))
+    for k in range(0, 64):
+        for q in (math.pi / 2, math.pi, 2 * math.pi):
+            b = f2b(q * (2.0 ** k))
+            for d in (-2, -1, 0, 1, 2):
+                xs.add(b + d)
+                xs.add((b + d) | SIGN)
+    for k in range(-1074, 1024, 7):
+        xs.add(pow2(k))
+        xs.add(pow2(k) | SIGN)
+    v = 0.0
+    while v < 760.0:
+        xs.add(f2b(-v))
+        xs.add(f2b(v))
+        v += 0.37
+    for v_ in (708.3964185322641, 709.782712893384, 745.1332191019412, 1e-320, 5e-324):
+        for d in (-2, -1, 0, 1, 2):
+            m = f2b(v_) + d
+            if m >= 0:
+                xs.add(m)
+                xs.add(m | SIGN)
+    n = 200000 if ck.thorough else 6000
+    for _ in range(n):
+        b = rnd.getrandbits(64)
+        if finite_bits(b):
+            xs.add(b)
+        xs.add(f2b(-rnd.uniform(0.0, 800.0)))
+        xs.add(f2b(rnd.uniform(-1e6, 1e6)))
+    return sorted(x for x in xs if finite_bits(x))
+
+
+def check_libm(ck, harness, model):
+    """measures, on the C library the implementation is linked with, the facts the theorems assume (sincos_finite,
+    exp_unit) and that the OCaml oracle of the model driver is the same function bit for bit"""
+    xs = libm_samples(ck)
+    lines = []
+    for fn in ("sin", "cos", "exp", "log"):
+        for x in xs:
+            lines.append("LIBM %s %016x" % (fn, x))
+    hout, _ = pc.run_harness_resilient(harness, lines)
+    rc, mout, merr = vv.run_lines(model, "\n".join(lines) + "\n")
+    if rc != 0 or len(mout) != len(lines):
+        raise vv.BuildError("model driver failed on LIBM lines: rc=%s %s" % (rc, merr[:300]))
+    stats = {"samples_per_function": len(xs), "sin_cos_finite": 0, "exp_in_unit_interval": 0, "oracle_equal": 0}
+    bad = {}
+    for k, l in enumerate(lines):
+        _, fn, hx = l.split()
+        x = int(hx, 16)
+        ho = hout[k]
+        if ho is None or len(ho) != 16:
+            bad.setdefault("libm:" + fn, "std::%s(%s) -> %r" % (fn, hx, ho))
+            continue
+        r = int(ho, 16)
+        if fn in ("sin", "cos"):
+            if finite_bits(r):
+                stats["sin_cos_finite"] += 1
+            else:
+                bad.setdefault("sincos_finite", "std::%s(%s) = %s is not finite" % (fn, hx, ho))
+        if fn == "exp" and b2f(x) <= 0.0:
+            if finite_bits(r) and 0.0 <= b2f(r) <= 1.0:
+                stats["exp_in_unit_interval"] += 1
+            else:
+                bad.setdefault("exp_unit", "std::exp(%s) = %s is outside [0,1] for an argument <= 0" % (hx, ho))
+        if ho == mout[k]:
+            stats["oracle_equal"] += 1
+        else:
+            ck.add_diff({"libm": fn, "x": hx}, mout[k], ho, what="the OCaml oracle of the model driver and the C "
+                        "library of the implementation disagree on %s(%s)" % (fn, hx))
+    for name, msg in bad.items():
+        ck.add_unshown("hypothesis", name, "Section hypothesis %s of coq/Prims/RealProofs.v does not hold of the C "
+                       "library in use: %s" % (name, msg))
+    ck.count(len(lines))
+    ck.coverage["libm_hypotheses_measured"] = stats
+
 
 def case_lines(cases, idx):
     hl, ml = [], []
@@ -592,9 +766,12 @@ def run(ck):
                    "(log exp sin cos realised by OCaml's Stdlib = the glibc the harness links)",
                    "harness/h_prims.cc canonical printing; g++ 12 UBSan/ASan"]
     ck.assumptions += [
-        "H_libm (Section hypotheses of coq/Prims/RealProofs.v, record CxxMini.libm): sin and cos map finite doubles "
-        "to finite doubles; exp maps a finite x <= 0 to a non-NaN double in [0,1]; log returns some double "
-        "(its result is guarded by isfinite in the code)",
+        "H_libm (Section hypotheses of coq/Prims/RealProofs.v, record CxxMini.libm): sincos_finite = sin and cos map "
+        "finite doubles to finite doubles; exp_unit = exp maps a finite x <= 0 to a non-NaN double in [0,1]; log "
+        "returns some double (its result is guarded by isfinite in the code). Both are MEASURED on every run on the "
+        "C library the harness links (LIBM lines: boundary values, 1-2 ulp neighbourhoods of k*pi/2 up to 2^63*pi, "
+        "exp thresholds, dense negatives, random patterns; coverage.libm_hypotheses_measured) and the OCaml oracle "
+        "of the model driver is compared with it bit for bit",
         "strings are shorter than 2^64 bytes (size_t) in real::length",
     ]
 
@@ -608,6 +785,8 @@ def run(ck):
     else:
         cases = gen_cases(ck, set(idents))
     idx = {n: i for i, n in enumerate(idents)}
+    if not ck.replay_path:
+        check_libm(ck, harness, model)
     hl, ml = case_lines(cases, idx)
     hout, crashes, mout = [], {}, []
     if cases:
@@ -706,7 +885,10 @@ def run(ck):
         rule="product of %d boundary doubles (+-0, +-denormal min, +-DBL_MIN, +-1 and neighbours, 2^-51 in 1-ulp steps, "
              "+-2^+-k, +-DBL_MAX, operands whose sum/product/square just overflows, libm thresholds) and the undefined "
              "value per argument of every unary/binary primitive; conditionals on operand pairs whose difference "
-             "straddles 2^-51 by 1 ulp with every defined/undefined branch shape; strings; seeded random bit patterns; "
+             "straddles 2^-51 by 1 ulp with every defined/undefined branch shape; operand pairs within 1-3 ulps of every "
+             "guard threshold of the proofs (DBL_MAX + 2^970, 2^1023 + 2^1023, 2^512 * 2^512, sqrt(DBL_MAX)^2, "
+             "DBL_MAX * or / (1 +- ulp), x / +-0, quotients next to an integer for idiv, fmod with ratio ~2^2097, ~1 and "
+             "exact multiples, sqrt(-denormal), ln at 0 and 1, exp thresholds of sigmoid); strings; seeded random bit patterns; "
              "random well-typed expression trees (depth <= 5, categories real/int/string, boundary constants and inputs) "
              "run by vita::run on the real interpreter and by the extracted run_tree; "
              "non-trivial = in-contract case with an operand within 8 ulps of a boundary value or of a power of two, an "
